@@ -20,12 +20,27 @@ def insideCrlf (src : List Nat) (off : Nat) : Bool :=
 def InDomain (src : List Nat) (off : Nat) : Prop :=
   isBoundary src off = true ∧ insideCrlf src off = false
 
+/-- Where `LinearLocatorState::init` puts the cursor: after a leading BOM. -/
+def initCursor (src : List Nat) : Nat := if startsWithBom src = true then 3 else 0
+
 /-- A forward call history starting with the cursor at `c`: `locate` never goes back behind the
     cursor (and moves it), `locate_only` looks ahead of the cursor (and leaves it). -/
 def Forward (src : List Nat) : Nat → List Op → Prop
   | _, [] => True
   | c, .locate o :: rest => c ≤ o ∧ InDomain src o ∧ Forward src o rest
   | c, .locateOnly o :: rest => c ≤ o ∧ InDomain src o ∧ Forward src c rest
+
+instance (src : List Nat) (off : Nat) : Decidable (InDomain src off) := by
+  unfold InDomain; exact inferInstance
+
+instance decForward (src : List Nat) : ∀ (c : Nat) (ops : List Op), Decidable (Forward src c ops)
+  | _, [] => isTrue trivial
+  | c, .locate o :: rest =>
+    have := decForward src o rest
+    by unfold Forward; exact inferInstance
+  | c, .locateOnly o :: rest =>
+    have := decForward src c rest
+    by unfold Forward; exact inferInstance
 
 /-- Structural well-formedness of UTF-8: every lead byte is followed by the right number of
     continuation bytes (over-long forms and surrogates are not excluded: a weaker hypothesis). -/
